@@ -497,3 +497,69 @@ func (s *a6stamper) BadA6Ring(w interceptor.RTPWriter) interceptor.RTPWriter {
 		return w.Write(h, p, a)
 	})
 }
+
+// ---- A7 -------------------------------------------------------------------------------------------------------
+
+type a7buf struct {
+	interceptor.NoOp
+	held *rtp.Packet
+}
+
+// GoodA7Marshal serialises the held packet into the caller's buffer and reports what MarshalTo wrote (or what the
+// wrapped reader read).
+func (g *a7buf) GoodA7Marshal(r interceptor.RTPReader) interceptor.RTPReader {
+	return interceptor.RTPReaderFunc(func(b []byte, a interceptor.Attributes) (int, interceptor.Attributes, error) {
+		n, attr, err := r.Read(b, a)
+		if err != nil {
+			return n, attr, err
+		}
+		if g.held == nil {
+			return n, attr, nil
+		}
+		m, err := g.held.MarshalTo(b)
+		return m, attr, err
+	})
+}
+
+// BadA7Len marshals elsewhere, copies what fits and reports the full length.
+func (g *a7buf) BadA7Len(r interceptor.RTPReader) interceptor.RTPReader {
+	return interceptor.RTPReaderFunc(func(b []byte, a interceptor.Attributes) (int, interceptor.Attributes, error) {
+		_, attr, err := r.Read(b, a)
+		if err != nil || g.held == nil {
+			return 0, attr, err
+		}
+		raw, err := g.held.Marshal()
+		if err != nil {
+			return 0, attr, err
+		}
+		copy(b, raw)
+		return len(raw), attr, nil
+	})
+}
+
+// ---- A8 -------------------------------------------------------------------------------------------------------
+
+type a8stream struct {
+	ssrc   uint32
+	count  uint32
+	report rtcp.SenderReport
+}
+
+func (s *a8stream) fresh() *rtcp.SenderReport {
+	return &rtcp.SenderReport{SSRC: s.ssrc, PacketCount: s.count}
+}
+
+func (s *a8stream) reused() *rtcp.SenderReport {
+	sr := &s.report
+	sr.SSRC, sr.PacketCount = s.ssrc, s.count
+	return sr
+}
+
+// GoodA8Tick writes a report allocated for this tick; BadA8Tick refills the one report object of the stream.
+func GoodA8Tick(s *a8stream, w interceptor.RTCPWriter) {
+	_, _ = w.Write([]rtcp.Packet{s.fresh()}, nil)
+}
+
+func BadA8Tick(s *a8stream, w interceptor.RTCPWriter) {
+	_, _ = w.Write([]rtcp.Packet{s.reused()}, nil)
+}
